@@ -15,7 +15,7 @@ RULE = ('workchains whose step registers n<=3 (thorough 4) awaitables (plain fut
         'assertion was evaluated or a failure was delivered')
 RULE += ('; also: completions while paused, registering steps inside if/elif/else/while bodies, one item under two keys, mapping results on re-assigned keys, a registering step that runs another process to completion (nested execute, re-entrant loop policy)')
 ASSUMPTIONS = ['pause/play: the workchain paused while the items complete, then played (finer interleavings are C06)', 'children are processes that wait for the harness (so completion is controlled)']
-REQUIRED = ['barrier_checks', 'ctx_checks', 'failures/exc', 'failures/killed', 'failures/cancel', 'kinds/fut', 'kinds/child', 'kinds/oldchild', 'how/ret', 'how/call', 'terminated_before_registration', 'failure_while_paused', 'nested_runs', 'nested_barrier_checks', 'nested_registered_before_inner_run', 'unprintable_failures', 'uncopyable_results', 'failure_callback_races']
+REQUIRED = ['barrier_checks', 'ctx_checks', 'failures/exc', 'failures/killed', 'failures/cancel', 'kinds/fut', 'kinds/child', 'kinds/oldchild', 'how/ret', 'how/call', 'terminated_before_registration', 'failure_while_paused', 'nested_runs', 'nested_barrier_checks', 'nested_registered_before_inner_run', 'unprintable_failures', 'uncopyable_results', 'failure_callback_races', 'equal_children_runs']
 BOUNDS = {'quick': 'n<=3 awaitables, all completion orders, placements sampled on a grid', 'thorough': 'n<=4, all placements'}
 
 
@@ -33,6 +33,10 @@ def _programs(tier):
             reg = [['k%d' % i, i, kind, how] for i, (kind, how) in enumerate(combo)]
             name = 'n%d_' % n + '_'.join('%s%s' % (k[0], h[0]) for k, h in combo)
             progs[name] = {'steps': [{'reg': reg, 'ret': None}, {'reg': [], 'ret': None}, {'reg': [], 'ret': 'end'}]}
+    # children of a class with value equality (any two compare and hash equal): two children, two outcomes
+    for name in ('n2_cr_cr', 'n2_cc_cc', 'n2_cr_cc', 'n3_cr_cc_fr'):
+        if name in progs:
+            progs['eq_' + name] = dict(progs[name], equal_children=True)
     # a later step re-assigns a key; and two waits in a row
     progs['reassign'] = {'steps': [{'reg': [['k', 0, 'fut', 'ret'], ['j', 1, 'fut', 'call']], 'ret': None},
                                    {'reg': [['k', 2, 'fut', 'call']], 'ret': None}, {'reg': [], 'ret': None}]}
@@ -192,6 +196,7 @@ def run_case(case):
         if e[0] == 'trace' and e[1] == 'enter' and e[2] > 0:
             obs['barrier_checks'] += len(e[6])
             obs['ctx_checks'] += len(e[5])
+    obs['equal_children_runs'] = int(bool(case['program'].get('equal_children')))
     obs['failure_callback_races'] = int(bool(case.get('race')))
     paused_at_completion = any(a['kind'] in ('complete', 'child') and a.get('paused_before') for a in rec['acts'])
     for c in rec['extra']['completions']:
